@@ -48,6 +48,7 @@ def dispatch(prog, fn, tval):
             if v is not None and v[0] == v[1]:
                 sizes.add(v[0])
     it = IntervalInterp(prog, fn, (), (), call_model=model)
+    it.max_loop_visits = 3      # a piecewise update loop: the algorithm selected does not depend on the trip count
     it.run({('f', 'hash->type->type', 'hash->type->type'): (tval, tval)})
     return algos, sizes, generic
 
@@ -272,7 +273,7 @@ def run(ctx):
                   'SHA1_Transform uses the four standard round constants' if ks <= consts else
                   'SHA1_Transform: missing %s' % sorted(hex(x) for x in ks - consts), st.file, st.line, config=config)
             # ---- e  finalisation layout, for every possible number of buffered bytes
-            from ..rules.layout import LayoutInterp, Ptr, check_padding
+            from ..rules.layout import LayoutInterp, Ptr, check_padding, length_bytes
             SINKS = {'SHA1_Transform': (1, 64, None), 'sha256_transf': (1, 64, 2), 'sha512_transf': (1, 128, 2)}
             FINALS = (
                 # function, context parameter, length cell, scale, extra cells, buffer, block, length field
@@ -288,9 +289,11 @@ def run(ctx):
                 bad = None
                 shapes = set()
                 runs = 0
+                minlen = None
                 for r in range(block):
                     for hi in ((0, 1) if scale == 8 else (0,)):       # bit counter: two representatives mod 512
                         it = LayoutInterp(prog, SINKS)
+                        it.length_cells = ('ctx.count', 'ctx.tot_len', 'ctx.len')
                         it.scalars['ctx.' + cell] = r * scale + hi * block * scale
                         for k_, v_ in extra.items():
                             it.scalars['ctx.' + k_] = v_
@@ -301,18 +304,57 @@ def run(ctx):
                         if not ok and bad is None:
                             bad = (r, msg)
                         shapes.add(msg if ok else 'bad')
+                        if ok:
+                            nb_ = length_bytes(it.stream, lenfield)
+                            minlen = nb_ if minlen is None else min(minlen, nb_)
                 ck.ob('C18-e', 'R9.layout', fname, 'padding', bad is None,
                       'for each of the %d possible buffered lengths the compression function receives message, 0x80, zeros '
                       'and a %d-byte length, ending on the first block boundary that fits (%d interpretations)' % (
                           block, lenfield, runs) if bad is None else
                       'with %d byte(s) buffered: %s' % bad, f.file, f.line, config=config,
                       sample={'function': fname, 'buffered': block - 1, 'layout': sorted(shapes)[-1]})
+                # ---- g  the length field carries (at least) 64 bits computed from the counters
+                if bad is None:
+                    ck.ob('C18-g', 'R9.length-width', fname, 'length-field', minlen is not None and minlen >= 8,
+                          '%d bytes of the length field are computed from the length counters (64-bit message length)' % minlen
+                          if minlen is not None and minlen >= 8 else
+                          'only %s byte(s) of the %d-byte length field are computed from the length counters, the rest is '
+                          'constant zero: a message of 2^%d bytes or more gets a wrong length and a digest that differs '
+                          'from the standard algorithm and from the OpenSSL build' % (
+                              minlen, lenfield, 8 * (minlen or 0) - 3), f.file, f.line, config=config)
             # ---- f  update layout: what is compressed and what stays buffered, at the class boundaries of the length
             UPDATES = (('SHA1_Update', 'context', 'count[0]', 8, {'count[1]': 0}, 'buffer', 64),
                        ('sha256_update', 'ctx', 'len', 1, {'tot_len': 0}, 'block', 64),
                        ('sha512_update', 'ctx', 'len', 1, {'tot_len': 0}, 'block', 128))
             for fname, cparam, cell, scale, extra, buf, block in UPDATES:
                 f = prog.need_func(fname)
+                # width of the running length counter(s) the update maintains (everything but the buffered count)
+                bits = 0
+                seen_cells = set()
+                for ex_ in all_exprs(f):
+                    for n_ in walk(ex_):
+                        if n_.k == 'mem' and n_.op in ('tot_len', 'count') and n_.op not in seen_cells:
+                            seen_cells.add(n_.op)
+                            t_ = (n_.dt or n_.t or '')
+                            if '[' in t_:
+                                ew = type_width(t_[:t_.index('[')].strip(), None) or 0
+                                if not ew:
+                                    # element type is a typedef: take the width from an indexing expression
+                                    for m_ in walk(ex_):
+                                        if m_.k == 'idx' and strip(m_.a[0]) is not None and strip(m_.a[0]).k == 'mem' \
+                                                and strip(m_.a[0]).op == n_.op:
+                                            ew = type_width(m_.t, m_.dt) or 0
+                                            break
+                                bits += ew * int(t_[t_.index('[') + 1:t_.index(']')])
+                            else:
+                                bits += type_width(n_.t, n_.dt) or 0
+                ck.ob('C18-g', 'R9.length-width', fname, 'length-counter', bits >= 64,
+                      'the running message length is kept in %d bits (%s)' % (bits, ', '.join(sorted(seen_cells)))
+                      if bits >= 64 else
+                      'the running message length is kept in %d bits (%s): it wraps for messages of 2^%d bytes or more, '
+                      'the digest then differs from the standard algorithm' % (bits, ', '.join(sorted(seen_cells)) or
+                                                                              'no counter found', bits),
+                      f.file, f.line, config=config)
                 bad = None
                 runs = 0
                 for r in range(block):
@@ -383,6 +425,31 @@ CLAIM = {
 }
 
 MUTANTS = [
+    {'id': 'm18w', 'desc': 'sha256 length field written with 32 bits again (pre-fix form)',
+     'file': 'src/lib/hash/bundled/sha2/sha2.c', 'old': '', 'new': '',
+     'edits': [('src/lib/hash/bundled/sha2/sha2.c', """                     < (ctx->len % SHA256_BLOCK_SIZE)));
+
+    len_b = (ctx->tot_len + ctx->len) << 3;
+    pm_len = block_nb << 6;
+
+    memset(ctx->block + ctx->len, 0, pm_len - ctx->len);
+    ctx->block[ctx->len] = 0x80;
+    UNPACK64(len_b, ctx->block + pm_len - 8);""", """                     < (ctx->len % SHA256_BLOCK_SIZE)));
+
+    len_b = (ctx->tot_len + ctx->len) << 3;
+    pm_len = block_nb << 6;
+
+    memset(ctx->block + ctx->len, 0, pm_len - ctx->len);
+    ctx->block[ctx->len] = 0x80;
+    UNPACK32(len_b, ctx->block + pm_len - 4);""")], 'expect': 'R9.length-width sha256_final'},
+    {'id': 'm18x', 'desc': 'sha2 running length kept in 32 bits again', 'file': 'src/lib/hash/bundled/sha2/sha2.h',
+     'old': """typedef struct {
+    uint64 tot_len;
+    unsigned int len;
+    unsigned char block[2 * SHA256_BLOCK_SIZE];""", 'new': """typedef struct {
+    unsigned int tot_len;
+    unsigned int len;
+    unsigned char block[2 * SHA256_BLOCK_SIZE];""", 'expect': 'R9.length-width sha256_update'},
     {'id': 'm18p', 'desc': 'sha256_final: second block chosen one byte too late', 'file': 'src/lib/hash/bundled/sha2/sha2.c',
      'old': """    block_nb = (1 + ((SHA256_BLOCK_SIZE - 9)
                      < (ctx->len % SHA256_BLOCK_SIZE)));
@@ -392,7 +459,7 @@ MUTANTS = [
 
     memset(ctx->block + ctx->len, 0, pm_len - ctx->len);
     ctx->block[ctx->len] = 0x80;
-    UNPACK32(len_b, ctx->block + pm_len - 4);
+    UNPACK64(len_b, ctx->block + pm_len - 8);
 
     sha256_transf""", 'new': """    block_nb = (1 + ((SHA256_BLOCK_SIZE - 8)
                      < (ctx->len % SHA256_BLOCK_SIZE)));
@@ -402,7 +469,7 @@ MUTANTS = [
 
     memset(ctx->block + ctx->len, 0, pm_len - ctx->len);
     ctx->block[ctx->len] = 0x80;
-    UNPACK32(len_b, ctx->block + pm_len - 4);
+    UNPACK64(len_b, ctx->block + pm_len - 8);
 
     sha256_transf""", 'expect': 'R9.layout sha256_final'},
     {'id': 'm18q', 'desc': 'SHA1_Final pads in one go with a length that is 0 at 56 mod 64 (seeded c18r2)',
